@@ -9,6 +9,7 @@ import (
 	"fmt"
 	"io"
 	"math/big"
+	"os"
 	"os/exec"
 	"strings"
 	"syscall"
@@ -34,13 +35,23 @@ type Solver struct {
 
 var solverSeq int
 
+// z3Opts: the rewriter's flattening of nested products (x*x)*(x*x)... expands a chain of k
+// squarings into 2^k factors and then ignores every timeout; it is switched off for the
+// primary solver (GOSYM_Z3FLAT=1 restores the default).
+func z3Opts() []string {
+	if os.Getenv("GOSYM_Z3FLAT") == "1" {
+		return nil
+	}
+	return []string{"rewriter.flat=false"}
+}
+
 func NewSolver(tt *TermTable, kind string, logw io.Writer) (*Solver, error) {
 	var cmd *exec.Cmd
 	switch kind {
 	case "z3":
 		cmd = exec.Command("z3", "-in")
 	case "", "z3-new":
-		cmd = exec.Command("z3-new", "-in")
+		cmd = exec.Command("z3-new", append([]string{"-in"}, z3Opts()...)...)
 		kind = "z3-new"
 	case "cvc5":
 		cmd = exec.Command("cvc5", "--incremental", "--lang", "smt2", "--produce-models")
@@ -459,7 +470,7 @@ func RunStandalone(kind, script string, timeout time.Duration) string {
 		// the solver checks its own model against the assertions
 		cmd = exec.Command("z3", "-in", "model_validate=true", fmt.Sprintf("-t:%d", ms))
 	case "z3-new":
-		cmd = exec.Command("z3-new", "-in", fmt.Sprintf("-t:%d", ms))
+		cmd = exec.Command("z3-new", append([]string{"-in", fmt.Sprintf("-t:%d", ms)}, z3Opts()...)...)
 	case "cvc5":
 		cmd = exec.Command("cvc5", "--lang", "smt2", fmt.Sprintf("--tlimit=%d", ms))
 		script = "(set-logic ALL)\n" + script
@@ -543,7 +554,7 @@ func SolveStandalone(kind string, tt *TermTable, roots []*Term, want []*Term, ti
 	case "z3":
 		cmd = exec.Command("z3", "-in", fmt.Sprintf("-t:%d", ms))
 	default:
-		cmd = exec.Command("z3-new", "-in", fmt.Sprintf("-t:%d", ms))
+		cmd = exec.Command("z3-new", append([]string{"-in", fmt.Sprintf("-t:%d", ms)}, z3Opts()...)...)
 	}
 	cmd.Stdin = strings.NewReader(sb.String())
 	done := make(chan []byte, 1)
